@@ -69,6 +69,7 @@ type Exec struct {
 	specVars     map[string]Value // param name -> entry value
 	inputs       map[string]*Term
 	globals      map[types.Object]*Obj
+	wordBytesOf  map[*Term][]*Term       // base-256 digits introduced for a word (byteOfWord)
 	written      map[*Obj]map[int]string // cells of pre-existing objects stored to on this path (-> where first)
 	lastWhere    string
 	evalOverride map[ast.Expr]Value // argument values fixed at a defer statement (deferred builtins)
